@@ -96,6 +96,7 @@ class _Renamed:
 
 
 def run(P, R, tier):
+    rowclose_rule(P, R)
     R.undecided += ["(d) observable equality over all cut points of the input (behavioural)"]
     # "the same component list": the cache of the component list is invalidated by every call before the engine runs and refreshed on
     # demand (shared with C14.components)
@@ -599,3 +600,28 @@ def sonewdef_rule(P, R):
                         file=f["file"], line=c[1], function=f["q"])
     if n < 20:
         R.anchor_missing(RULE, "read_selected_output: only %d Set_new_def calls" % n)
+
+
+def rowclose_rule(P, R):
+    """"Running ... in one call, or split at simulation (END) boundaries over successive calls ... produces the same selected-output rows":
+    the wrapper's value table is rebuilt for every call, so a row must be complete when the punch of a cell is over.  punch_all ends the
+    row of every block with fpunchf_end_row after the last punch function; that call must be executed on every pass of the block loop -
+    a direct statement of the loop body, after punch_user_punch - and not only when a line feed is written (NO_NEWLINE$, -new_line
+    false): a row left pending is merged into the next punch of the same call, but lost at a call boundary."""
+    RULE = "C04.rowclose"
+    R.rule(RULE, "punch_all: the table row of each block is ended unconditionally after the last punch function of the block", minimum=1)
+    f = P.one("Phreeqc::punch_all")
+    bodies = [blk for blk in T.walk(f["body"]) if blk[0] == "Compound" and any(T.is_node(st) and st[0] == "Call" and T.callee_name(st) == "punch_user_punch" for st in blk[2])]
+    if len(bodies) != 1:
+        R.anchor_missing(RULE, "punch_all: the block loop body (direct call of punch_user_punch) was found %d times" % len(bodies))
+        return
+    st = bodies[0][2]
+    last_punch = max(i for i, x in enumerate(st) if T.is_node(x) and x[0] == "Call" and T.callee_name(x).startswith("punch_") and T.callee_name(x) not in ("punch_msg", "punch_flush"))
+    direct = [i for i, x in enumerate(st) if T.is_node(x) and x[0] == "Call" and T.callee_name(x) == "fpunchf_end_row"]
+    nested = [x[1] for i, x in enumerate(st) if T.is_node(x) and x[0] != "Call" and any(T.callee_name(c) == "fpunchf_end_row" for c in T.calls(x))]
+    if direct and direct[0] > last_punch:
+        R.ok(RULE, "punch_all", "fpunchf_end_row is a direct statement of the loop body after the last punch function")
+    else:
+        R.violation(RULE, "punch_all", "the row of a block is ended %s: when the condition fails (NO_NEWLINE$, -new_line false) the punched cells stay pending, are merged "
+                    "into the next punch of the same call and lost at a call boundary" % ("only under a condition (line %d)" % nested[0] if nested else "nowhere in the loop body"),
+                    file=f["file"], line=nested[0] if nested else f["line"], function=f["q"])
